@@ -251,6 +251,118 @@ async fn run(core: &'static Core, proto: VProto, so: &[usize], si: &[usize], fir
     Ok(out)
 }
 
+/// A FAULT scenario (MCPipeE2EF): the destination's connection is reset (`bad` = "in") or the client
+/// resets its stream / aborts its connection (`bad` = "out") after the scripted chunks went through.
+/// Returns (problems, note).
+async fn run_fault(core: &'static Core, proto: VProto, so: &[usize], si: &[usize], bad_in: bool) -> Result<(Vec<String>, String), String> {
+    let listener = TcpListener::bind("127.0.0.1:0").await.map_err(|e| e.to_string())?;
+    let port = listener.local_addr().unwrap().port();
+    let (client, server) = tokio::io::duplex(1 << 16);
+    let tunnel = tokio::spawn(async move {
+        let _ = serve_tunnel(core, proto, server, peer_addr(), "localhost".into(), None).await;
+    });
+    let target = format!("127.0.0.1:{}", port);
+    let to = Duration::from_secs(10);
+    let so_total: usize = so.iter().sum();
+    let si_total: usize = si.iter().sum();
+    let mut problems: Vec<String> = vec![];
+    let mut note = String::new();
+    match proto {
+        VProto::Http2 => {
+            let (mut send, conn) = tokio::time::timeout(to, h2::client::handshake(client)).await.map_err(|_| "h2 handshake")?.map_err(|e| e.to_string())?;
+            let conn_task = tokio::spawn(async move { let _ = conn.await; });
+            let r = http::Request::builder().method("CONNECT").uri(target.as_str()).body(()).unwrap();
+            std::future::poll_fn(|cx| send.poll_ready(cx)).await.map_err(|e| e.to_string())?;
+            let (resp, mut up) = send.send_request(r, false).map_err(|e| e.to_string())?;
+            let resp = tokio::time::timeout(to, resp).await.map_err(|_| "no CONNECT response")?.map_err(|e| e.to_string())?;
+            if resp.status() != 200 { return Err("CONNECT not answered 200".into()); }
+            let mut down = resp.into_body();
+            let (mut peer, _) = tokio::time::timeout(to, listener.accept()).await.map_err(|_| "destination saw no connection")?.map_err(|e| e.to_string())?;
+            // both directions carry their chunks
+            let mut sent = 0;
+            for &n in so { up.send_data(Bytes::from(payload(sent, n, 7)), false).map_err(|e| e.to_string())?; sent += n; }
+            let mut psent = 0;
+            for &n in si { peer.write_all(&payload(psent, n, 101)).await.map_err(|e| e.to_string())?; psent += n; }
+            let mut pgot = vec![0u8; so_total];
+            if so_total > 0 { tokio::time::timeout(to, peer.read_exact(&mut pgot)).await.map_err(|_| "destination did not receive the client's bytes")?.map_err(|e| e.to_string())?; }
+            let mut cgot: Vec<u8> = vec![];
+            while cgot.len() < si_total {
+                match tokio::time::timeout(to, down.data()).await {
+                    Ok(Some(Ok(ch))) => { let _ = down.flow_control().release_capacity(ch.len()); cgot.extend_from_slice(&ch); }
+                    other => { note = format!("before the fault the client stream ended: {:?}", other.map(|x| x.map(|y| y.map(|b| b.len())))); break; }
+                }
+            }
+            if let Some(p) = check_stream(&pgot, so_total, 7) { problems.push(format!("client->destination: {}", p)); }
+            if let Some(p) = check_stream(&cgot, si_total, 101) { problems.push(format!("destination->client: {}", p)); }
+            if bad_in {
+                // the destination's connection is RESET
+                let _ = peer.set_linger(Some(Duration::ZERO));
+                drop(peer);
+                match tokio::time::timeout(Duration::from_secs(5), down.data()).await {
+                    Ok(None) => problems.push("clean-end: the reset of the destination's connection reached the client as a clean end of stream".into()),
+                    Ok(Some(Ok(ch))) => problems.push(format!("data: {} more bytes after everything the destination sent", ch.len())),
+                    Ok(Some(Err(e))) => note = format!("client saw: {}", e),
+                    Err(_) => problems.push("no-teardown: 5 s after the destination's connection was reset the client's stream is still open".into()),
+                }
+            } else {
+                // the client resets its stream
+                up.send_reset(h2::Reason::CANCEL);
+                let mut b = [0u8; 64];
+                match tokio::time::timeout(Duration::from_secs(5), peer.read(&mut b)).await {
+                    Ok(Ok(0)) | Ok(Err(_)) => {}
+                    Ok(Ok(n)) => problems.push(format!("data: destination received {} more bytes after the client's reset", n)),
+                    Err(_) => problems.push("no-teardown: 5 s after the client reset its stream the destination's connection is still open".into()),
+                }
+            }
+            conn_task.abort();
+        }
+        VProto::Http1 => {
+            let mut io = client;
+            h1_send(&mut io, &h1_request("CONNECT", &target, None, &[])).await.map_err(|e| e.to_string())?;
+            let mut buf = Vec::new();
+            let mut tmp = [0u8; 1];
+            while !buf.ends_with(b"\r\n\r\n") {
+                let n = tokio::time::timeout(to, io.read(&mut tmp)).await.map_err(|_| "no CONNECT response")?.map_err(|e| e.to_string())?;
+                if n == 0 { return Err("connection closed before the CONNECT response".into()); }
+                buf.push(tmp[0]);
+            }
+            if parse_h1_heads(&buf).0.first().map(|h| h.status) != Some(200) { return Err("CONNECT not answered 200".into()); }
+            let (mut peer, _) = tokio::time::timeout(to, listener.accept()).await.map_err(|_| "destination saw no connection")?.map_err(|e| e.to_string())?;
+            let mut sent = 0;
+            for &n in so { io.write_all(&payload(sent, n, 7)).await.map_err(|e| e.to_string())?; sent += n; }
+            let mut psent = 0;
+            for &n in si { peer.write_all(&payload(psent, n, 101)).await.map_err(|e| e.to_string())?; psent += n; }
+            let mut pgot = vec![0u8; so_total];
+            if so_total > 0 { tokio::time::timeout(to, peer.read_exact(&mut pgot)).await.map_err(|_| "destination did not receive the client's bytes")?.map_err(|e| e.to_string())?; }
+            let mut cgot = vec![0u8; si_total];
+            if si_total > 0 { tokio::time::timeout(to, io.read_exact(&mut cgot)).await.map_err(|_| "client did not receive the destination's bytes")?.map_err(|e| e.to_string())?; }
+            if let Some(p) = check_stream(&pgot, so_total, 7) { problems.push(format!("client->destination: {}", p)); }
+            if let Some(p) = check_stream(&cgot, si_total, 101) { problems.push(format!("destination->client: {}", p)); }
+            let mut b = [0u8; 64];
+            if bad_in {
+                let _ = peer.set_linger(Some(Duration::ZERO));
+                drop(peer);
+                // HTTP/1.1 can only close: the connection must be closed, with nothing more on it
+                match tokio::time::timeout(Duration::from_secs(5), io.read(&mut b)).await {
+                    Ok(Ok(0)) | Ok(Err(_)) => {}
+                    Ok(Ok(n)) => problems.push(format!("data: {} more bytes after everything the destination sent", n)),
+                    Err(_) => problems.push("no-teardown: 5 s after the destination's connection was reset the client's connection is still open".into()),
+                }
+            } else {
+                drop(io);
+                match tokio::time::timeout(Duration::from_secs(5), peer.read(&mut b)).await {
+                    Ok(Ok(0)) | Ok(Err(_)) => {}
+                    Ok(Ok(n)) => problems.push(format!("data: destination received {} more bytes after the client's abort", n)),
+                    Err(_) => problems.push("no-teardown: 5 s after the client's connection was aborted the destination's connection is still open".into()),
+                }
+            }
+        }
+    }
+    tunnel.abort();
+    let _ = tunnel.await;
+    Ok((problems, note))
+}
+
 fn main() {
     quiet_panics();
     logcap::install();
@@ -305,6 +417,40 @@ fn main() {
                             let class = if problems.iter().any(|p| p.contains("bytes delivered") || p.contains("differs")) { "data" } else { "end" };
                             rep.violation_with(format!("pipe-e2e:{}:{}:{}{}", pname, order, class, if late { ":backpressure" } else { "" }), problems.join("; "),
                                 || json!({"scenario": desc, "problems": problems, "note": o.note, "peer_got": o.peer_got.len(), "client_got": o.client_got.len(), "peer_eof": o.peer_eof, "client_eof": o.client_eof}));
+                        }
+                    }
+                }
+            }
+        }
+    }
+    // fault scenarios (MCPipeE2EF): a reset on one side is a failure of the whole tunnel, never a clean end
+    if let Some(fv) = arg("--fault-vectors") {
+        let mut seenf = std::collections::BTreeSet::new();
+        for v in read_tagged(&fv, "E2EF") {
+            let key = format!("{}|{}|{}", v["so"], v["si"], v["bad"]);
+            if !seenf.insert(key.clone()) { continue; }
+            let strip = |x: &Value| -> Vec<usize> { x.as_array().unwrap().iter().map(|y| y.as_u64().unwrap() as usize).filter(|y| *y != 0 && *y != 100).map(|y| y * UNIT).collect() };
+            let so = strip(&v["so"]);
+            let si = strip(&v["si"]);
+            let bad_in = v["bad"] == "in";
+            for proto in [VProto::Http1, VProto::Http2] {
+                let core: &'static Core = Box::leak(Box::new(make_core(&CoreOpts { allow_private: true, ..Default::default() })));
+                let pname = if proto == VProto::Http1 { "h1" } else { "h2" };
+                let desc = json!({"proto": pname, "so": v["so"], "si": v["si"], "reset_by": if bad_in { "destination" } else { "client" }, "unit": UNIT});
+                rep.eval();
+                rep.nontrivial(format!("fault|{}|{}", key, pname));
+                let d2 = desc.clone();
+                watchdog::enter(move || ("pipe-e2e-fault:hang".into(), "fault scenario did not finish".into(), d2));
+                let r = rt.block_on(run_fault(core, proto, &so, &si, bad_in));
+                watchdog::leave();
+                let side = if bad_in { "destination-reset" } else { "client-reset" };
+                match r {
+                    Err(e) => rep.violation_with(format!("pipe-e2e-fault:{}:{}:setup", pname, side), e, || desc.clone()),
+                    Ok((problems, note)) => {
+                        if !problems.is_empty() {
+                            let class = problems[0].split(':').next().unwrap_or("other").to_string();
+                            let class = if class.contains("->") { "data".to_string() } else { class };
+                            rep.violation_with(format!("pipe-e2e-fault:{}:{}:{}", pname, side, class), problems.join("; "), || json!({"scenario": desc, "problems": problems, "note": note}));
                         }
                     }
                 }
